@@ -70,7 +70,9 @@ TOLERANCES = {
 ASSUMPTIONS = [
     'step sizes are admissible (strictly inside the documented regions, '
     'computed from exact operator norms)',
-    'kaczmarz / adupdates are run with random=False',
+    'kaczmarz / adupdates with random=True only with np.random re-seeded '
+    'from the descriptor before every run (the order is then a function of '
+    'the case); never in the resume clause',
     'osmlem calls its callback once per sub-iteration (documented by the '
     'partial-update formula); adupdates / kaczmarz once per outer or inner '
     'iteration according to callback_loop',
@@ -236,7 +238,25 @@ def _problem_st(draw, solver, mode='callback'):
         p.update(domain=sd, terms=terms,
                  stepsize=draw(st.sampled_from([1.0, 0.5, 2.0])))
         if solver == 'adupdates':
+            p['stepsize'] = draw(st.one_of(
+                st.sampled_from([0.35, 1.0, 2.5]),
+                st.floats(0.2, 4.0).map(lambda v: float(np.float32(v)))))
             p['loop'] = draw(st.sampled_from(['outer', 'outer', 'inner']))
+            p['random'] = mode != 'resume' and draw(st.integers(0, 3)) == 0
+            # element-valued inner step sizes (documented for plain L1Norm /
+            # L2NormSquared terms) in a good fraction of the cases: such a
+            # term is put in on purpose, on an operator with a leaf range
+            for i in range(len(terms)):
+                if draw(st.integers(0, 2)):
+                    continue
+                od = draw(_op_st(sd, compound_ok=False))
+                if pb.range_class(od, pb.space_class(sd))['t'] != 'leaf':
+                    continue
+                terms[i] = {'L': od, 'frac': terms[i]['frac'],
+                            'g': {'kind': draw(st.sampled_from(
+                                ['l1', 'l2sq'])), 'lam': 1.0,
+                                'form': 'plain'},
+                            'force_elem': True}
             for t in terms:
                 opts = ['scalar'] * 4
                 rcls = pb.range_class(t['L'], pb.space_class(sd))
@@ -246,7 +266,8 @@ def _problem_st(draw, solver, mode='callback'):
                         t['g'].get('form') == 'plain' and \
                         rcls['t'] == 'leaf':
                     opts += ['elem', 'elem']
-                t['istep'] = draw(st.sampled_from(opts))
+                t['istep'] = 'elem' if t.pop('force_elem', False) else \
+                    draw(st.sampled_from(opts))
         else:
             p['f'] = draw(_func_st(sd))
             p['frac'] = draw(st.sampled_from([0.3, 0.6, 0.9]))
@@ -278,7 +299,8 @@ def _problem_st(draw, solver, mode='callback'):
                         for _ in range(nops)],
                  omega_list=draw(st.booleans()),
                  proj=draw(st.integers(0, 3)) == 0,
-                 loop=draw(st.sampled_from(['outer', 'outer', 'inner'])))
+                 loop=draw(st.sampled_from(['outer', 'outer', 'inner'])),
+                 random=mode == 'callback' and draw(st.integers(0, 2)) == 0)
     elif solver in ('proxgrad', 'accel', 'steepest', 'prox_dca', 'dca'):
         sd = draw(_domain_st())
         A = draw(_op_st(sd)) if draw(st.booleans()) else None
@@ -514,12 +536,25 @@ def make_runner(solver, p):
                                 which, e))
                 return run
 
-            R.run = guard(lambda s, n, cb=None: adupdates(
-                s['x'], gs, Ls, mu, inner, n, random=False, callback=cb,
-                callback_loop=loop), 'adupdates')
-            R.run_ref = guard(lambda s, n, cb=None: adupdates_simple(
-                s['x'], gs, Ls, mu, inner, n, random=False),
-                'adupdates_simple')
+            rand = bool(p.get('random'))
+            rseed = int(p['seed']) % (2 ** 32)
+
+            def opt(s, n, cb=None):
+                # random=True draws one permutation per outer iteration
+                # from np.random: re-seeding before every run makes the
+                # order a function of the descriptor, identical for the
+                # optimised solver, the reference and every re-run
+                np.random.seed(rseed)
+                return adupdates(s['x'], gs, Ls, mu, inner, n, random=rand,
+                                 callback=cb, callback_loop=loop)
+
+            def ref(s, n, cb=None):
+                np.random.seed(rseed)
+                return adupdates_simple(s['x'], gs, Ls, mu, inner, n,
+                                        random=rand)
+
+            R.run = guard(opt, 'adupdates')
+            R.run_ref = guard(ref, 'adupdates_simple')
             R.region = 'g=' + '+'.join(pb.func_class_name(t['g'])
                                        for t in p['terms'])
             R.region += ',istep=' + '+'.join(t['istep'] for t in p['terms'])
@@ -612,9 +647,16 @@ def make_runner(solver, p):
         R.nonsmooth = True
         R.L_identity = all(o['kind'] == 'identity' for o in p['ops'])
         R.new_state = lambda: {'x': unflat(x0, X)}
-        R.run = lambda s, n, cb=None: S.kaczmarz(
-            ops, s['x'], rhs, n, omega=omega, projection=proj, random=False,
-            callback=cb, callback_loop=loop)
+        rand = bool(p.get('random'))
+        rseed = int(p['seed']) % (2 ** 32)
+
+        def krun(s, n, cb=None):
+            np.random.seed(rseed)
+            return S.kaczmarz(ops, s['x'], rhs, n, omega=omega,
+                              projection=proj, random=rand, callback=cb,
+                              callback_loop=loop)
+
+        R.run = krun
         return R
 
     if solver in ('proxgrad', 'accel', 'steepest', 'prox_dca', 'dca'):
@@ -805,6 +847,14 @@ def run_case(desc):
 
     if p.get('accel', 'none') != 'none':
         strata.append('pdhg:accelerated')
+    if p.get('random'):
+        strata.append('random-order:' + solver)
+    if solver == 'adupdates':
+        for kind in sorted({t['istep'] for t in p['terms']}):
+            strata.append({'elem': 'inner=element', 'list': 'inner=list',
+                           'scalar': 'inner=scalar'}[kind])
+        strata.append('outer-stepsize:' + (
+            '1' if p['stepsize'] == 1.0 else 'not-1'))
     if mode == 'pair':
         return _pair(desc, R, name, strata)
     if mode == 'resume':
@@ -1014,5 +1064,6 @@ REQUIRED_STRATA = (
      'op:divergence', 'op:reduction', 'domain:tensor',
      'domain:tensor-weighted', 'domain:discr', 'domain:pspace',
      'domain:vfield', 'pdhg:state-matters', 'pdhg:accelerated',
-     'segments:with-zero',
+     'segments:with-zero', 'inner=element', 'outer-stepsize:not-1',
+     'random-order:adupdates', 'random-order:kaczmarz',
      'callback:inner'])
